@@ -360,8 +360,8 @@ void poly<T, Degree, NbModuli>::set(hwt_dist const& mode) {
   for (size_t k = mode.hwt; k < degree; ++k) 
   {
     size_t pos = 0;
-    size_t reject_sample = std::numeric_limits<size_t>::max() / k;
-    /* sample uniformly from [0, k) using reject sampling. */
+    size_t reject_sample = std::numeric_limits<size_t>::max() / (k + 1);
+    /* sample uniformly from [0, k] using reject sampling. */
     for (;;) {
       if (rnd_ptr == rnd_end)
       {
@@ -369,8 +369,8 @@ void poly<T, Degree, NbModuli>::set(hwt_dist const& mode) {
         rnd_ptr = rnd.begin();
       }
       pos = *rnd_ptr++;
-      if (pos <= reject_sample * k) {
-        pos %= k;
+      if (pos < reject_sample * (k + 1)) {
+        pos %= (k + 1);
         break;
       }
     }
